@@ -106,6 +106,12 @@ class SymEnv(BaseEnv):
     def rarr(self, name, shape):
         return S.arr(name, tuple(shape)).view(shim.RArr)
 
+    def symint(self, name, default=0):
+        return S.SymInt(name)
+
+    def symstr(self, name, default=''):
+        return S.SymStr(name)
+
     def quat(self, name, kind='full'):
         c = self._qc(name, kind)
         return shim.SymQuat(*c)
@@ -377,6 +383,16 @@ class ConcEnv(BaseEnv):
 
     def real(self, name):
         return self._v(name)
+
+    def symint(self, name, default=0):
+        v = self.vals.get(name, default)
+        self.used[name] = v
+        return int(v)
+
+    def symstr(self, name, default=''):
+        v = self.vals.get(name, default)
+        self.used[name] = v
+        return str(v)
 
     def rarr(self, name, shape):
         a = np.zeros(tuple(shape))
